@@ -1015,6 +1015,9 @@ type SortCase struct {
 	Rot int `json:"rot,omitempty"`
 	// SelfChild: additionally a two-level sort whose child list is the list itself
 	SelfChild bool `json:"self_child,omitempty"`
+	// ShortChild: finally a two-level sort whose child list has fewer elements than the list (a caller's mistake: the call
+	// may fail); afterwards the list is unchanged and can be sorted as before
+	ShortChild bool `json:"short_child,omitempty"`
 }
 
 // cmpElem is the oracle's order: integers and floats numerically (no NaN by construction), strings bytewise.
@@ -1116,6 +1119,7 @@ func drawSortCase(t *rapid.T) SortCase {
 		}
 	}
 	c.SelfChild = rapid.IntRange(0, 3).Draw(t, "selfchild") == 0
+	c.ShortChild = rapid.IntRange(0, 4).Draw(t, "shortchild") == 0
 	if rapid.IntRange(0, 2).Draw(t, "rotate?") == 0 {
 		c.Rot = rapid.IntRange(1, 7).Draw(t, "rot")
 	}
@@ -1231,6 +1235,37 @@ func runSortCase(c SortCase) *pbt.Result {
 			}
 		}
 	}
+	if c.ShortChild && len(vals) >= 2 && c.Rot == 0 {
+		ct := c.CT
+		if ct == "" {
+			ct = c.T
+		}
+		var sv []elem
+		if cvals != nil {
+			sv = cvals[:len(vals)/2]
+		} else {
+			sv = vals[:len(vals)/2]
+		}
+		short := listOf(ct, -1, sv)
+		returned, _ := pbt.WithTimeout(20*time.Second, func() { a.any.SortingAnyList(c.Asc, short.any, c.CAsc) })
+		if !returned {
+			return pbt.Fail("SortingAnyList with a child list of %d elements for a list of %d did not return within 20 s", len(sv), len(vals))
+		}
+		if err := sameSeq(c.T, a.toArray(), vals); err != nil {
+			return pbt.Fail("a two-level sort with a too short child list changed the list: %v", err)
+		}
+		var again []int
+		returned, p := pbt.WithTimeout(20*time.Second, func() { again = a.any.Sorting(c.Asc) })
+		if !returned {
+			return pbt.Fail("after a two-level sort with a too short child list (%d of %d elements) had failed or returned, Sorting on the same list did not return within 20 s", len(sv), len(vals))
+		}
+		if p != nil {
+			return pbt.Fail("Sorting after a two-level sort with a too short child list panicked: %v", p)
+		}
+		if err := validOrder("Sorting after a two-level sort with a too short child list", again, c.T, vals, c.Asc, "", nil, false); err != nil {
+			return &pbt.Result{Err: err}
+		}
+	}
 	dupPrimary := false
 	seen := map[string]bool{}
 	for _, e := range vals {
@@ -1267,7 +1302,7 @@ func runSortCase(c SortCase) *pbt.Result {
 
 var specSorting = pbt.Register(pbt.Spec[SortCase]{
 	Prop: "C13", Name: "sorting", Parallel: 8,
-	Rule:  "lists of 0-300 values (lengths on both sides of sort.Sort's insertion-sort limit) over an alphabet of 1-6 values (extremes, ±0, ±Inf, no NaN, empty string) so duplicates abound; 80% with a child list of any of the five types (numeric children within ±2^53); all four direction combinations; Sorting and SortingAnyList results must be a permutation of 0..n-1 whose consecutive elements are ordered by (primary, then child) in the requested directions; lists unchanged; in a quarter of the cases also a two-level sort with the list itself as child (must return, ordered by the primary); Filtering(result) is the list in that order; in a third of the cases the list is then overwritten in place (Set, same length) with its values rotated by 1-7 positions and sorted again in both directions and with the child: the orders must be those of the new content; non-trivial = >= 2 equal primary keys; distinct by whole case",
+	Rule:  "lists of 0-300 values (lengths on both sides of sort.Sort's insertion-sort limit) over an alphabet of 1-6 values (extremes, ±0, ±Inf, no NaN, empty string) so duplicates abound; 80% with a child list of any of the five types (numeric children within ±2^53); all four direction combinations; Sorting and SortingAnyList results must be a permutation of 0..n-1 whose consecutive elements are ordered by (primary, then child) in the requested directions; lists unchanged; in a quarter of the cases also a two-level sort with the list itself as child (must return, ordered by the primary); Filtering(result) is the list in that order; in a third of the cases the list is then overwritten in place (Set, same length) with its values rotated by 1-7 positions and sorted again in both directions and with the child: the orders must be those of the new content; in a fifth of the cases finally a two-level sort with a child list half as long (may fail) after which the list is unchanged and sorts as before; non-trivial = >= 2 equal primary keys; distinct by whole case",
 	Quick: 15000, Thorough: 2000000,
 	Draw: drawSortCase, Run: noPanic(runSortCase),
 })
